@@ -180,6 +180,8 @@ var c13Corpus = [][2]string{
 	{"I/L|0|-|P", "4,4,4,4,4,1,0,0,0,0"},
 	{"A/I|1|-|P", "4,4,4,4,4,4,2,0,0,0"},
 	// IDLE completed by closeWithError before it registers its continuation request
+	{"I|0|-|X", "4,4,4,1,0,0,0,0,0,0,0"},
+	{"I/N|1|-|-", "4,4,4,2,0,0,0,0,0,0,0"},
 	{"LI/N|1|-|No", "4,4,4,4,4,1,0,0,0,0,0,0,0,4,4,4,4,4,4,4"},
 	// ENABLE answered while SEARCH is being submitted
 	{"E/S|0|0|Ro.E", "4,4,4,4,5,5,1,1,0,0,0,5"},
@@ -195,6 +197,7 @@ var c13Probes = [][3]string{
 	{"f26idle", "L/I|0|-|P", "5,4,4,4,4,4,1,0,0,0"},
 	{"f26idle", "A/I|0|-|P", "5,4,4,4,4,4,4,1,0,0,0"},
 	{"f26idle", "I/L|0|-|P", "4,5,5,5,5,5,1,0,0,0"},
+	{"f26reorderOnly", "I|0|-|X", "4,4,4,1,0,0,0,0,0,0,0,4,4,4"},
 }
 
 type c13Sched struct {
